@@ -440,7 +440,7 @@ fn print_xml(
 				.chain(once(format!("</BitCast>"))),
 		),
 		(TypeCast { start_of_type: _ }, _) => Box::new(
-			once(format!("<BitCast>"))
+			once(format!("<TypeCast>"))
 				.chain(print_prev(i - 1))
 				.chain(print_prev(i - 2))
 				.chain(once(format!("</TypeCast>"))),
